@@ -23,7 +23,31 @@ import (
 // and where the crash falls (cluster-wide, after any number of processed requests).
 
 // two keys whose slots fall on different lanes (slot parity) and different nodes
-var c14cKeys = func() [2]string {
+var c14cKeys = c14cKeysSpread
+
+// c14cKeysColo: two keys on different lanes (slot parity) whose slots both belong to node 0: their
+// transactions share one node pipeline (scenario field Colo)
+var c14cKeysColo = func() [2]string {
+	var out [2]string
+	found := 0
+	for i := 0; found < 2 && i < 100000; i++ {
+		k := fmt.Sprintf("k{%d}", i)
+		s := ref.HashSlotS(k)
+		if clusterd.EvenLayout(3)(s) != 0 {
+			continue
+		}
+		if found == 0 && s%2 == 0 {
+			out[0] = k
+			found++
+		} else if found == 1 && s%2 == 1 {
+			out[1] = k
+			found++
+		}
+	}
+	return out
+}()
+
+var c14cKeysSpread = func() [2]string {
 	var out [2]string
 	found := 0
 	for i := 0; found < 2 && i < 100000; i++ {
@@ -137,9 +161,16 @@ type c14cScenario struct {
 	// and the output has a slot white list that contains only the slot of lane 0's key. A command
 	// the key table does not know is not slot-filtered, so lane 1's units are replayed as well.
 	Foo bool `json:"foo,omitempty"`
+	// Colo: the keys of both lanes live on node 0 (different slots): their transactions travel over one
+	// node pipeline, so what happens to the transaction in front is seen by the one queued behind it
+	Colo bool `json:"colo,omitempty"`
 }
 
 func c14cExec(t *testing.T, scn c14cScenario, ch *mc.Chooser) (rec c14Rec, machinery string) {
+	c14cKeys = c14cKeysSpread
+	if scn.Colo {
+		c14cKeys = c14cKeysColo
+	}
 	msg := bubble(t, func() {
 		biEnvReset()
 		cl := clusterd.New(clusterAddrs, clusterd.EvenLayout(3))
